@@ -67,6 +67,7 @@ type rpcEnv struct {
 	nDeliv  int
 	returned []int // question ids the script has sent a Return for
 	stall    chan struct{} // closed by fG: stalled PlaceArgs and held releases proceed
+	rawOrder bool          // report the messages of a step in send order
 }
 
 func (e *rpcEnv) ev(s string) {
@@ -1238,7 +1239,9 @@ func (e *rpcEnv) flush() string {
 		}
 		wire = kept
 	}
-	sort.Strings(wire)
+	if !e.rawOrder {
+		sort.Strings(wire)
+	}
 	sort.Strings(rest)
 	return strings.Join(append(append(append(wire, deliv...), rest...), e.tables()), " ")
 }
@@ -1262,6 +1265,10 @@ func (e *rpcEnv) settle() string {
 	return e.flush()
 }
 
+// rpcRawOrder: the next script reports the messages of a step in the order they were sent (for the oracles) instead of
+// sorted (the canonical form compared with the model)
+var rpcRawOrder bool
+
 func execRPCScript(script string, bootstrap bool) string {
 	rpcQueueSize = 64
 	if strings.HasPrefix(script, "q") {
@@ -1272,7 +1279,7 @@ func execRPCScript(script string, bootstrap bool) string {
 			}
 		}
 	}
-	e := &rpcEnv{}
+	e := &rpcEnv{rawOrder: rpcRawOrder}
 	e.t = &scriptTransport{env: e, in: make(chan []byte), closed: make(chan struct{})}
 	before := runtime.NumGoroutine()
 	var opts rpc.Options
@@ -2002,7 +2009,10 @@ func rpcOracles(trace string) []string {
 }
 
 func execRPCCheck(boot bool, script string) string {
+	// (sorted, a Finish that leaves late and the next Call re-using its id would read as "re-used before Finish")
+	rpcRawOrder = true
 	trace := execRPCScript(script, boot)
+	rpcRawOrder = false
 	bad := rpcOracles(trace)
 	if len(bad) == 0 {
 		return "ok"
